@@ -6,6 +6,7 @@ import (
 	"go/types"
 	"math"
 	"math/big"
+	"strings"
 
 	"golang.org/x/tools/go/ssa"
 )
@@ -25,7 +26,9 @@ func (vc *VC) execInstr(ins ssa.Instruction) {
 	case *ssa.DebugRef:
 		vc.assertsAfter(x)
 	case *ssa.Alloc:
+		vc.localAlloc = !x.Heap
 		vc.vals[x] = vc.alloc(x.Type().(*types.Pointer).Elem(), x.Type(), x.Comment)
+		vc.localAlloc = false
 	case *ssa.UnOp:
 		vc.vals[x] = vc.unop(x)
 	case *ssa.BinOp:
@@ -134,13 +137,47 @@ func (vc *VC) execInstr(ins ssa.Instruction) {
 
 // allocation ---------------------------------------------------------------
 
+// newObj returns the id of a freshly allocated object: a new constant above the current
+// allocation bound (vc.bound: every object that exists at this point has a smaller id -
+// parameters, globals, earlier allocations, and whatever callees allocated so far).
 func (vc *VC) newObj() string {
 	vc.allocN++
-	obj := fmt.Sprintf("(+ $A0 %d)", vc.allocN)
+	if vc.localAlloc {
+		// A variable that does not escape (go/ssa: Alloc with Heap == false) is never referenced
+		// from memory or by a callee. It gets a NEGATIVE id: every object id stored in a memory,
+		// passed in or returned by a call is >= 0, so such a local cannot alias any of them.
+		obj := lit(big.NewInt(int64(-vc.allocN)))
+		for _, l := range vc.enclosingLoops(vc.cur) {
+			l.allocs[obj] = true
+		}
+		return obj
+	}
+	obj := fmt.Sprintf("$newobj%d", vc.allocN)
+	vc.declare(obj, SInt)
+	vc.fact("true", le(vc.curBound(), obj))
+	vc.setBound(add(obj, "1"))
 	for _, l := range vc.enclosingLoops(vc.cur) {
 		l.allocs[obj] = true
 	}
 	return obj
+}
+
+func (vc *VC) curBound() string {
+	if vc.bound == "" {
+		return "$A0"
+	}
+	return vc.bound
+}
+
+func (vc *VC) setBound(b string) { vc.bound = b }
+
+// callBound: a call may have allocated objects; afterwards the bound is some larger value.
+func (vc *VC) callBound() string {
+	vc.allocN++
+	b := vc.declare(fmt.Sprintf("$bound%d", vc.allocN), SInt)
+	vc.fact("true", le(vc.curBound(), b))
+	vc.setBound(b)
+	return b
 }
 
 func (vc *VC) alloc(elem types.Type, PT types.Type, hint string) SVal {
@@ -217,7 +254,7 @@ func (vc *VC) nilCheck(p SVal, pos token.Pos, R string) {
 	vc.oblige("nil", R, not(eq(p.obj(), "0")), pos, "nil pointer dereference")
 }
 
-func isAllocObj(s string) bool { return len(s) > 5 && s[:5] == "(+ $A" }
+func isAllocObj(s string) bool { return strings.HasPrefix(s, "$newobj") || strings.HasPrefix(s, "(- ") }
 
 func (vc *VC) derefCheck(p SVal, pos token.Pos, R string) {
 	if p.K != KPtr {
